@@ -16,13 +16,16 @@ def run_parts(ck, tier, witness_parts=(), ir_parts=(), cfgs=None, rule_filter=No
     if ir_parts:
         if cfgs is None:
             cfgs = corpus.corpus(tier)
+        avail = []
         for part in ir_parts:
             try:
                 importlib.import_module('svlib.rules.' + part)
+                avail.append(part)
             except ImportError as e:
                 ck.note('part %s not available (%s)' % (part, e))
-                continue
-            res = corpus.run_over(cfgs, 'svlib.rules.' + part, 'analyse_tu')
+        allres = corpus.run_parts_over(cfgs, avail) if avail else {}
+        for part in avail:
+            res = allres[part]
             if rule_filter is not None:
                 for r in res:
                     if r['ok']:
